@@ -208,6 +208,8 @@ func c28(c *report.Check) {
 	evals := 0
 	f := c28Fixture()
 	defer f.srv.Stop()
+	sink := newViolSink(c)
+	defer sink.flush()
 	maxShort, minPos := time.Duration(0), time.Duration(math.MaxInt64)
 	var shortCase, posCase string
 	zeroMixTTL := map[string]bool{}
@@ -221,13 +223,13 @@ func c28(c *report.Check) {
 					res := c28Eval(f, cs)
 					classes[res.class]++
 					for _, p := range res.problems {
-						c.Violation(fmt.Sprintf("c28:%s:v%d:%s", cs.Slots, cs.Variant, p), fmt.Sprintf("slots=%s variant=%d: %s (result routes=%v ttl=%v)", cs.Slots, cs.Variant, p, res.routes, res.ttl), cs)
+						sink.add(fmt.Sprintf("c28:%s:v%d:%s", cs.Slots, cs.Variant, p), fmt.Sprintf("slots=%s variant=%d: %s (result routes=%v ttl=%v)", cs.Slots, cs.Variant, p, res.routes, res.ttl), cs)
 					}
 					ttl := res.ttl
 					switch res.class {
 					case "notfound", "failed":
 						if ttl <= 0 {
-							c.Violation(fmt.Sprintf("c28:%s:v%d:non-positive-ttl-for-%s", cs.Slots, cs.Variant, res.class), fmt.Sprintf("slots=%s: %s result cached with ttl=%v (<=0 means no expiry)", cs.Slots, res.class, ttl), cs)
+							sink.add(fmt.Sprintf("c28:%s:v%d:non-positive-ttl-for-%s", cs.Slots, cs.Variant, res.class), fmt.Sprintf("slots=%s: %s result cached with ttl=%v (<=0 means no expiry)", cs.Slots, res.class, ttl), cs)
 						}
 						if ttl > maxShort {
 							maxShort, shortCase = ttl, cs.Slots
@@ -249,7 +251,7 @@ func c28(c *report.Check) {
 		}
 	}
 	if !(maxShort < minPos) {
-		c.Violation("c28:ttl-order", fmt.Sprintf("negative/failed ttl %v (slots %s) is not shorter than positive ttl %v (slots %s)", maxShort, shortCase, minPos, posCase), map[string]any{"short": shortCase, "pos": posCase})
+		sink.add("c28:ttl-order", fmt.Sprintf("negative/failed ttl %v (slots %s) is not shorter than positive ttl %v (slots %s)", maxShort, shortCase, minPos, posCase), map[string]any{"short": shortCase, "pos": posCase})
 	}
 	c.Set("evaluations", evals)
 	c.Set("distinct_nontrivial", dist.N())
